@@ -132,7 +132,7 @@ OnInPublish(m, ev) ==
                       ELSE [@ EXCEPT ![i].topic = ev.x]]
               ELSE m
       rec == [n |-> n, id |-> ev.id, q |-> ev.q, topic |-> topic, size |-> ev.n,
-              st |-> "arrived", h |-> 0, acked |-> FALSE, recd |-> FALSE, rel |-> FALSE,
+              st |-> "arrived", failed |-> FALSE, h |-> 0, acked |-> FALSE, recd |-> FALSE, rel |-> FALSE,
               comp |-> FALSE, code |-> 0, refused |-> FALSE, relProduced |-> FALSE,
               noalias |-> (unresolved \/ overMax), aliased |-> (alias > 0)]
       unacked == Cardinality({k \in 1..Len(m.pubs) : m.pubs[k].q > 0 /\ ~m.pubs[k].refused
@@ -252,8 +252,10 @@ OnHEnd(m, ev) ==
                pi == IdxOf(m.pubs, LAMBDA p : p.id = r.id /\ p.q = 2 /\ p.rel /\ ~p.relProduced /\ ~p.refused)
            IN IF r.kind \in {"pubrel", "pubrel_early"} /\ pi > 0
                 THEN [m1 EXCEPT !.pubs[pi].relProduced = TRUE] ELSE m1)
-  ELSE LET st == CASE ev.k = "ok" -> "ok" [] ev.k \in {"nack", "nack_ok"} -> "nack" [] OTHER -> "err"
-       IN [m EXCEPT !.pubs[i].st = st, !.pubs[i].code = ev.r,
+  ELSE LET st == CASE ev.k = "err" -> "err" [] ev.k \in {"nack", "nack_ok"} -> "nack" [] OTHER -> "ok"
+           \* ("err", "nack": the handler returned an error; "nack_ok": it returned a negative
+           \*  acknowledgement itself; anything else the harness answers like "ok")
+       IN [m EXCEPT !.pubs[i].st = st, !.pubs[i].code = ev.r, !.pubs[i].failed = ev.k \in {"err", "nack"},
                     !.running = IF @ > 0 THEN @ - 1 ELSE 0]
 
 OnHDrop(m, ev) ==
@@ -423,6 +425,12 @@ OnFinal(m, ev) ==
   ELSE IF ~Healthy(m) THEN
      (IF m.est /\ (m.stops > 0 \/ m.expectStop # "none") /\ ~m.connDone /\ ev.s = 0
         THEN Fail(m, "C07:connection-task-did-not-complete-after-stop") ELSE m)
+  ELSE IF \E i \in 1..Len(m.pubs) : LET p == m.pubs[i] IN
+            ~p.refused /\ p.failed /\ (p.st = "err" \/ (p.st = "nack" /\ m.role = "server" /\ (m.ver = 3 \/ p.q = 0)))
+    THEN \* a handler failed, no negative acknowledgement exists for it (MQTT 3.1.1, QoS 0, unmapped
+         \* error) and the connection is still up.  (In the client role "nack" is not a failure: the
+         \* handler itself returns the acknowledgement.)
+         Fail(m, "C03:failing-handler-neither-negatively-acknowledged-nor-ended-the-connection")
   ELSE IF \E i \in 1..Len(m.pubs) : ~m.pubs[i].refused /\ m.pubs[i].st = "arrived"
     THEN Fail(m, IF ev.n > 0 THEN "C12:reading-never-resumed"
                  ELSE IF \E i \in 1..Len(m.pubs) : ~m.pubs[i].refused /\ m.pubs[i].st = "arrived"
